@@ -108,5 +108,25 @@ func (h *HealthRun) Run() []TraceLine {
 			OnStep(false, i+1, &h.lines[len(h.lines)-1])
 		}
 	}
+	// a schedule that ends with the death of the process has no Quiesce step: if the process is still here a moment later
+	// (the panic follows the fifth failed ping at once), the end-of-run obligations are judged on what it does instead
+	if n := len(h.sch.Steps); n > 0 && str(h.sch.Steps[n-1].L["a"]) != "Quiesce" {
+		dies := false
+		for _, e := range h.sch.Steps[n-1].Evs {
+			if m, ok := e.(map[string]any); ok && m["ev"] == "Died" {
+				dies = true
+			}
+		}
+		if dies {
+			time.Sleep(400 * time.Millisecond)
+			h.s.Emit(Ev{"ev": "Quiesced"})
+			tl := TraceLine{Run: h.sch.ID, I: n + 1, L: map[string]any{"a": "Quiesce", "added": true}, Evs: h.s.Drain(), Post: Ev{"up": true}}
+			h.lines = append(h.lines, tl)
+			if OnStep != nil {
+				OnStep(true, n+1, nil)
+				OnStep(false, n+1, &h.lines[len(h.lines)-1])
+			}
+		}
+	}
 	return h.lines
 }
